@@ -111,8 +111,20 @@ def oc(g):
     return g[0] if g[0] != "ERR" else "ERR:" + g[1].split(":")[0]
 
 
+def decoy_for(ns, I, seed):
+    """Another architecture with a different module set (last leaf missing): the same pattern is
+    resolved against it first, so a pattern -> modules table kept anywhere but in the evaluation at
+    hand would be stale for the architecture under test."""
+    last = [n for n in ns if not any(m.startswith(n + ".") for m in ns)][-1]
+    keep = [n for n in ns if n != last]
+    if len(keep) < 2:
+        return None
+    return build(keep, [(u, v) for u, v in I if u in keep and v in keep], seed)
+
+
 def check_graph(ns, I, seed, res, only=None):
     ev = build(ns, I, seed)
+    decoy = decoy_for(ns, I, seed)
     viol = []
     non_root = ns[1:]
     fixed_named = [(x,) for x in non_root[:3]]
@@ -140,8 +152,15 @@ def check_graph(ns, I, seed, res, only=None):
                             continue
                         if side == "subj":
                             a = mk(verb, imp, exc, fam_kind, pat, "named", other)
+                            a0 = mk(verb, imp, exc, fam_kind, pat, "named", other)
                         else:
                             a = mk(verb, imp, exc, "named", other, fam_kind, pat)
+                            a0 = mk(verb, imp, exc, "named", other, fam_kind, pat)
+                        if decoy is not None:
+                            run_rule(a0, decoy)  # same pattern, other architecture, other rule object
+                            if res is not None:
+                                res.transitions += 1
+                                res.stats["pattern-first-resolved-on-other-architecture"] += 1
                         ga = oc(run_rule(a, ev))
                         if not matches:
                             note(f"{fam_kind}:nomatch")
